@@ -30,6 +30,7 @@ def processLine (brotliDict : ByteArray) (line : String) : String :=
       | "xa" => handleXa kv
       | "brd" => handleBrd brotliDict kv
       | "btr" => handleBtr kv
+      | "brr" => handleBrr brotliDict kv
       | "xo" => handleXo kv
       | "xw" => handleXw kv
       | "fl" => handleFl kv
